@@ -250,6 +250,8 @@ def startsWithDigit : Str → Bool
 
 def isLowerAlpha (c : Char) : Bool := 'a' ≤ c && c ≤ 'z'
 
+def notSpace (c : Char) : Bool := c != ' '
+
 /-- a text is cut into *pieces*: an optional leading delimiter character and the delimiter-free token after it -/
 abbrev Piece := Option Char × Str
 
@@ -350,29 +352,40 @@ def shiftOpOfName (s : Str) : Option Nat := (List.range shiftOpNames.length).fin
 def splitSpace (s : Str) : List Str := (splitTop ' ' s).filter (!·.isEmpty)
 
 /-- `v3.4s`, `v3.16b[5]`, `q1`, `w2`, `x7`, `%3.4s` -/
-def parseA64Reg (env : Env) (s : Str) : Option POp := do
-  let (s, eidx) ←
-    (match splitAt? '[' s with
-     | some (a, b) => (stripSuffix? [']'] b).bind fun ds => (parseDec ds).map fun i => (a, some i)
-     | none => some (s, none) : Option (Str × Option Nat))
-  match splitAt? '.' s with
-  | some (r, el) =>
-    let letter ← el.getLast?
-    let cnt ← (if el.length = 1 then some 0 else parseDec el.dropLast : Option Nat)
+def notOpenBracket (c : Char) : Bool := c != '['
+def notDot (c : Char) : Bool := c != '.'
+
+/-- `[3]` after a vector register -/
+def readElemIndex : Str → Option (Option Nat)
+  | [] => some none
+  | '[' :: r => (dropLast? ']' r).bind fun ds => (parseDec ds).map some
+  | _ => none
+
+/-- the register number of `v<digits>` (< 32) -/
+def vRegId : Str → Option Nat
+  | 'v' :: ds => if ds.all Char.isDigit ∧ !ds.isEmpty then (parseDec ds).bind fun id => if id < 32 then some id else none else none
+  | _ => none
+
+/-- `.4s` / `.b`: (lane count or 0, element letter) -/
+def readArrangement (el : Str) : Option (Nat × Char) :=
+  match el.getLast? with
+  | none => none
+  | some letter =>
     if !(letter = 'b' ∨ letter = 'h' ∨ letter = 's' ∨ letter = 'd') then none
-    -- `vN` names the vector register whose arrangement follows; its width is fixed by count·element size
-    let physId : Option Nat :=
-      match r with
-      | 'v' :: ds => if ds.all Char.isDigit ∧ !ds.isEmpty then (parseDec ds).bind fun id => if id < 32 then some id else none else none
-      | _ => none
-    match physId with
-    | some id => return .reg (.phys 0 id) (some (cnt, letter)) eidx
-    | none =>
-      let i ← virtIndexByName env r
-      return .reg (.virt i none) (some (cnt, letter)) eidx
-  | none =>
-    let r ← parseReg env s
-    return .reg r none eidx
+    else (if el.length = 1 then some 0 else parseDec el.dropLast).map fun cnt => (cnt, letter)
+
+/-- `v3.4s`, `v3.16b[5]`, `q1`, `w2`, `x7`, `%3.4s`: name, optional `.arrangement`, optional `[index]` -/
+def parseA64Reg (env : Env) (s : Str) : Option POp :=
+  (readElemIndex (s.dropWhile notOpenBracket)).bind fun eidx =>
+  let main := s.takeWhile notOpenBracket
+  match main.dropWhile notDot with
+  | [] => (parseReg env main).map fun r => .reg r none eidx
+  | '.' :: el =>
+    (readArrangement el).bind fun arr =>
+    match vRegId (main.takeWhile notDot) with
+    | some id => some (.reg (.phys 0 id) (some arr) eidx)
+    | none => (virtIndexByName env (main.takeWhile notDot)).map fun i => .reg (.virt i none) (some arr) eidx
+  | _ => none
 
 def isA64MemDelim (c : Char) : Bool := c == '[' || c == ']' || c == ',' || c == ' ' || c == '!'
 
@@ -433,18 +446,24 @@ def parseA64RegList (env : Env) (s : Str) : Option (List PReg) := do
     | none => let r ← parseReg env part; out := out ++ [r]
   return out
 
+/-- a single word: number, register (with arrangement / index) or label -/
+def parseA64Word (env : Env) (w : Str) : Option POp :=
+  if isNumberTok w then (parseNumber64 w).map fun v => .imm v 0
+  else match parseA64Reg env w with
+    | some r => some r
+    | none => (parseLabel env w).map .label
+
 def parseA64Op (env : Env) (s : Str) : Option POp :=
   if s.head? = some '[' then (parseA64Mem env s).map .mem
   else if s.head? = some '{' then (parseA64RegList env s).map .regList
   else
-    let ws := splitSpace s
-    let number (w : Str) : Bool := startsWithDigit w ∨ (w.head? = some '-' ∧ startsWithDigit w.tail)
-    match ws with
-    | [w] => if number w then (parseNumber64 w).map fun v => .imm v 0
-             else match parseA64Reg env w with
-               | some r => some r
-               | none => (parseLabel env w).map .label
-    | [sop, w] => if number w then (shiftOpOfName sop).bind fun k => if k = 0 then none else (parseNumber64 w).map fun v => .imm v k else none
+    match s.dropWhile notSpace with
+    | [] => parseA64Word env s
+    | ' ' :: w =>
+      -- `lsr 3`: shift operation and amount
+      if isNumberTok w then
+        (shiftOpOfName (s.takeWhile notSpace)).bind fun k => if k = 0 then none else (parseNumber64 w).map fun v => .imm v k
+      else none
     | _ => none
 
 /-! ## instruction lines -/
@@ -463,8 +482,6 @@ def parseMnemonic (s : Str) : Str × List Str :=
     | none => (first, alts)
 
 def x86PrefixWordsL : List Str := x86PrefixWords.map String.toList
-
-def notSpace (c : Char) : Bool := c != ' '
 
 /-- a word that may stand before the mnemonic: an option word, or a braced group (`{vex}`, `{rcx}` after rep) -/
 def isHeadWord (w : Str) : Bool := x86PrefixWordsL.contains w || w.head? == some '{'
@@ -558,25 +575,30 @@ def parseX86Inst (env : Env) (s : Str) : Option PInst :=
 
 def condNames : List String := ["al", "na", "eq", "ne", "hs", "lo", "mi", "pl", "vs", "vc", "hi", "ls", "ge", "lt", "gt", "le"]
 
-/-- architectural syntax: `[base], offset` is ONE operand (post-index); a closed bracket followed by another item is read that way -/
-def mergePostIndex : List Str → List Str
+/-- architectural syntax: the comma chunks of one memory operand belong together — an opened bracket `[b` continues in the next
+    chunk (`off]`, `x ext n]`), and a closed `[b]` followed by another item is the post-index form `[b], off`; only `[b]!` stands alone -/
+def groupChunks : List Str → List Str
   | a :: b :: rest =>
-    if a.head? = some '[' ∧ a.getLast? = some ']' then (a ++ ", ".toList ++ b) :: mergePostIndex rest
-    else a :: mergePostIndex (b :: rest)
+    if a.head? = some '[' ∧ a.getLast? ≠ some '!' then (a ++ ',' :: ' ' :: b) :: groupChunks rest
+    else a :: groupChunks (b :: rest)
   | l => l
 
-def parseA64Inst (env : Env) (s : Str) : Option PInst := do
-  let (mn, rest) := match splitAt? ' ' s with | some (a, b) => (a, b) | none => (s, [])
-  let (m, cond) ←
-    (match splitAt? '.' mn with
-     | some (a, c) => if condNames.any (·.toList == c) then some (a, some c) else none
-     | none => some (mn, none) : Option (Str × Option Str))
-  let mut pi : PInst := { mnemonic := m, cond := cond }
-  if rest.isEmpty then return pi
-  for ch in mergePostIndex ((splitTop ',' rest).map trimL) do
-    let op ← parseA64Op env ch
-    pi := { pi with ops := pi.ops ++ [{ op := op }] }
-  return pi
+/-- `name` or `name.cc` -/
+def readA64Mnemonic (mn : Str) : Option (Str × Option Str) :=
+  match mn.dropWhile notDot with
+  | [] => some (mn, none)
+  | '.' :: c => if condNames.any (·.toList == c) then some (mn.takeWhile notDot, some c) else none
+  | _ => none
+
+def parseA64Inst (env : Env) (s : Str) : Option PInst :=
+  (readA64Mnemonic (s.takeWhile notSpace)).bind fun mc =>
+  let pi : PInst := { mnemonic := mc.1, cond := mc.2 }
+  match s.dropWhile notSpace with
+  | [] => some pi
+  | ' ' :: body =>
+    ((lexPieces (fun c => c == ',') body.length body).mapM chunkOfPiece).bind fun chunks =>
+    ((groupChunks chunks).mapM (parseA64Op env)).map fun ops => { pi with ops := ops.map fun op => { op := op } }
+  | _ => none
 
 /-! ## denotation of what was given -/
 
@@ -800,5 +822,55 @@ def monLogLine (env : Env) (flags instId options : Nat) (extra : ExtraReg) (ops 
         | _ => (body, false)
       else (body, !body.contains ';')
     okComment && okCol && monInstruction env flags instId options extra ops ["short", "long", "rex"] (trimR (trimL instText))
+
+/-! ## Builder nodes: what the text of a node denotes -/
+
+def isDigitC (c : Char) : Bool := c.isDigit
+
+/-- a decimal number at the front, and the rest -/
+def readNat (s : Str) : Option (Nat × Str) := (parseDec (s.takeWhile isDigitC)).map fun n => (n, s.dropWhile isDigitC)
+
+/-- data directive names by architecture and item size (x86: db dw dd dq; AArch64: byte hword word xword) -/
+def dataWord (arch : Arch) (size : Nat) : Option Str :=
+  (match arch, size with
+   | .a64, 1 => some "byte" | .a64, 2 => some "hword" | .a64, 4 => some "word" | .a64, 8 => some "xword"
+   | .a64, _ => none
+   | _, 1 => some "db" | _, 2 => some "dw" | _, 4 => some "dd" | _, 8 => some "dq" | _, _ => none).map String.toList
+
+/-- `.align 16 (code)` -/
+def readAlign (s : Str) : Option (Nat × Nat) :=
+  (stripPrefix? ".align ".toList s).bind fun r =>
+  (readNat r).bind fun (n, rest) =>
+  if rest == " (code)".toList then some (0, n) else if rest == " (data)".toList then some (1, n) else none
+
+/-- `.dd {Count=3 Repeat=2 TotalSize=12}` -/
+def readEmbed (arch : Arch) (size : Nat) (s : Str) : Option (Nat × Nat × Nat) :=
+  (dataWord arch size).bind fun w =>
+  (stripPrefix? (['.'] ++ w ++ " {Count=".toList) s).bind fun r =>
+  (readNat r).bind fun (count, r) =>
+  (stripPrefix? " Repeat=".toList r).bind fun r =>
+  (readNat r).bind fun (rep, r) =>
+  (stripPrefix? " TotalSize=".toList r).bind fun r =>
+  (readNat r).bind fun (total, r) => if r == ['}'] then some (count, rep, total) else none
+
+/-- the text of a node denotes the node: an instruction node reads back as the instruction (inline comment after `; `),
+    a label node as `label:`, align / embed-data / comment nodes as their content -/
+def monNode (env : Env) (flags : Nat) (n : Node) (inl : Option Str) (text : Str) : Bool :=
+  match n with
+  | .comment t => text == "; ".toList ++ t
+  | _ =>
+    -- split off the inline comment
+    match (match inl with
+           | some c => (stripSuffix? ("; ".toList ++ c) text).map trimR
+           | none => some text : Option Str) with
+    | none => false
+    | some body =>
+      match n with
+      | .inst id opts extra ops => monInstruction env flags id opts extra ops [] body
+      | .label id => (match dropLast? ':' body with | some l => parseLabel env l == some id | none => false)
+      | .align mode nn => readAlign body == some ((if mode = 0 then 0 else 1), nn)
+      | .embedData size count rep => readEmbed env.arch size body == some (count, rep, size * count)
+      | .section name => body == ".section ".toList ++ name
+      | .comment _ => false
 
 end AsmjitVerif.FormatText
